@@ -170,4 +170,24 @@ def planted_packings(rng, count, maxitems=300):
 
 
 def planted_covers(rng, count, maxitems=300):
-    return _planted_bins(rng, count, maxitems, [10, 12, 60, 100, 1200])
+    out = _planted_bins(rng, count - count // 3, maxitems, [10, 12, 60, 100, 1200])
+    # threshold-heavy planted covers: every item is exactly a half, a third, a quarter or a sixth of the bin size
+    for _ in range(count // 3):
+        C = rng.choice([6, 12, 60, 1200])
+        m = rng.randint(6, max(6, maxitems // 5))
+        shapes = [[C // 3] * 3, [C // 2] * 2, [C // 2, C // 3, C // 6], [C // 3, C // 3, C // 6, C // 6], [C // 6] * 6, [C // 2, C // 6, C // 6, C // 6]]
+        if rng.random() < 0.4:
+            shapes = shapes[:1]
+        vals, cert = [], []
+        for b in range(m):
+            parts = rng.choice(shapes)
+            cert.append(list(range(len(vals) + 1, len(vals) + len(parts) + 1)))
+            vals += parts
+            if len(vals) >= maxitems:
+                break
+        perm = list(range(len(vals))); rng.shuffle(perm)
+        newvals = [0] * len(vals); pos = {}
+        for newi, oldi in enumerate(perm):
+            newvals[newi] = vals[oldi]; pos[oldi + 1] = newi + 1
+        out.append({"vals": newvals, "C": C, "cert": [[pos[i] for i in b] for b in cert]})
+    return out
